@@ -307,6 +307,8 @@ fn expr(e: &syn::Expr) -> String {
     syn::Expr::Lit(l) => match &l.lit {
       syn::Lit::Int(i) => format!("ELit {}", i.base10_digits()),
       syn::Lit::Bool(b) => format!("EBool {}", b.value),
+      // a string literal is a message constant: an unbound name evaluates to the constructor of that name
+      syn::Lit::Str(s) => format!("EVar {}", q(&format!("str:{}", s.value()))),
       _ => foreign(e),
     },
     syn::Expr::Path(p) => {
